@@ -338,6 +338,112 @@ template<class T, size_t A, size_t B, size_t C> void g_view3d() {
         c(fseq<0,A>(), fseq<0,B>(), fseq<C-1,C>()) += a(fseq<0,A>(), fseq<0,B>(), fseq<0,1>()); }, VG_SEED);
     VG_DESC("view3d T=%s A=%zu B=%zu C=%zu", TN, A, B, C); print_report(desc, r);
 }
+// ---------------------------------------------------------------------------------------------- round 3: views by index / mask, layout, factorisations
+// index-tensor views (random views) exist on owning tensors: the parent sits at the guard, indices cover first / last element
+template<class T, size_t N> void g_randview() {
+    using TT = Tensor<T,N>;
+    Operand ops[] = {{sizeof(TT) / sizeof(T), INOUT, 0, N}};
+    auto r = sweep<T>(ops, 1, [](T* const* p) {
+        TT& a = *reinterpret_cast<TT*>(p[0]);
+        constexpr size_t K = (N + 1) / 2 + 1;
+        Tensor<int,K> idx; for (size_t k = 0; k < K; ++k) idx(k) = (int)((k * 2) % N); idx(K - 1) = (int)N - 1;
+        Tensor<T,K> g = a(idx); sink(g.data(), sizeof(T) * K);
+        sink_val(sum(a(idx)));
+        a(idx) += T(1); a(idx) = T(3); a(idx) = g; a(idx) += g; a(idx) *= g + g; }, VG_SEED, 0u, alignof(TT));
+    VG_DESC("randview T=%s N=%zu", TN, N); print_report(desc, r);
+}
+template<class T, size_t M, size_t N> void g_randview2d() {
+    using TT = Tensor<T,M,N>;
+    Operand ops[] = {{sizeof(TT) / sizeof(T), INOUT, 0, M*N}};
+    auto r = sweep<T>(ops, 1, [](T* const* p) {
+        TT& a = *reinterpret_cast<TT*>(p[0]);
+        Tensor<int,2> ri; ri(0) = 0; ri(1) = (int)M - 1;
+        Tensor<int,2> ci; ci(0) = (int)N - 1; ci(1) = 0;
+        Tensor<T,2,2> g = a(ri, ci); sink(g.data(), sizeof(T) * 4);
+        a(ri, ci) = T(2); }, VG_SEED, 0u, alignof(TT));
+    VG_DESC("randview2d T=%s M=%zu N=%zu", TN, M, N); print_report(desc, r);
+}
+// boolean mask (filter) views (owning parents only: the view class is not defined for maps)
+template<class T, size_t N> void g_filterview() {
+    using TT = Tensor<T,N>;
+    Operand ops[] = {{sizeof(TT) / sizeof(T), INOUT, 0, N}, {sizeof(TT) / sizeof(T), IN, 0, N}};
+    auto r = sweep<T>(ops, 2, [](T* const* p) {
+        TT& a = *reinterpret_cast<TT*>(p[0]); const TT& b = *reinterpret_cast<const TT*>(p[1]);
+        Tensor<bool,N> mask; for (size_t k = 0; k < N; ++k) mask(k) = (k % 3 != 1); mask(N - 1) = true;
+        a(mask) = T(4); a(mask) += b; a(mask) *= T(2); a(mask) = b; a(mask) -= b + b;
+        Tensor<T,N> t = a(mask); sink(t.data(), sizeof(T) * N); }, VG_SEED, 0u, alignof(TT));
+    VG_DESC("filterview T=%s N=%zu", TN, N); print_report(desc, r);
+}
+// reshape / flatten of maps, element-wise work on the reshaped map, converters
+template<class T, size_t M, size_t N> void g_layout_map() {
+    Operand ops[] = {{M*N}, {M*N, INOUT}};
+    auto r = sweep<T>(ops, 2, [](T* const* p) {
+        TensorMap<T,M,N> a(p[0]); TensorMap<T,M,N> c(p[1]);
+        auto fa = flatten(a); auto fc = flatten(c);
+        fc += fa; fc(fseq<M*N-1,M*N>()) = T(7);
+        auto ra = reshape<N,M>(a); auto rc = reshape<N,M>(c);
+        rc -= ra * T(2);
+        sink_val(sum(fa)); sink_val(ra(N - 1, M - 1));
+        Tensor<T,M,N> t(a); Tensor<T,M*N> u = flatten(t); sink(u.data(), sizeof(T) * M * N);
+        T raw[M*N]; std::copy(a.data(), a.data() + M*N, raw); Tensor<T,M,N> w(raw); sink(w.data(), sizeof(T) * M * N); }, VG_SEED);
+    VG_DESC("layout_map T=%s M=%zu N=%zu", TN, M, N); print_report(desc, r);
+}
+// reductions over views of a map
+template<class T, size_t N> void g_reduce_view() {
+    Operand ops[] = {{N}};
+    auto r = sweep<T>(ops, 1, [](T* const* p) {
+        TensorMap<T,N> a(p[0]);
+        sink_val(sum(a(fseq<N/2,N>()))); sink_val(sum(a(seq(N > 1 ? 1 : 0, (int)N)))); sink_val(product(a(seq(0, (int)N, 2))));
+        sink_val(sum(a(fseq<0,N,2>()))); Tensor<T,N-N/2> h1 = a(fseq<0,N-N/2>()); Tensor<T,N-N/2> h2 = a(fseq<N/2,N>()); sink_val(inner(h1, h2)); }, VG_SEED);
+    VG_DESC("reduce_view T=%s N=%zu", TN, N); print_report(desc, r);
+}
+// LU / QR / inverse variants on a map operand (diagonally dominant), results into owning tensors
+template<class T, size_t M> void g_lu_map() {
+    Operand ops[] = {{M*M, IN, (int)M}};
+    auto r = sweep<T>(ops, 1, [](T* const* p) {
+        TensorMap<T,M,M> a(p[0]);
+        Tensor<T,M,M> L, U; lu(a, L, U); sink(L.data(), sizeof(T) * M * M); sink(U.data(), sizeof(T) * M * M);
+        Tensor<size_t,M> P; lu<LUCompType::SimpleLUPiv>(a, L, U, P); sink(U.data(), sizeof(T) * M * M); }, VG_SEED);
+    VG_DESC("lu_map T=%s M=%zu", TN, M); print_report(desc, r);
+}
+template<class T, size_t M> void g_qr_map() {
+    Operand ops[] = {{M*M, IN, (int)M}};
+    auto r = sweep<T>(ops, 1, [](T* const* p) {
+        TensorMap<T,M,M> a(p[0]);
+        Tensor<T,M,M> Q, R; qr(a, Q, R); sink(Q.data(), sizeof(T) * M * M); sink(R.data(), sizeof(T) * M * M);
+        Tensor<T,M,M> iv = inverse<InvCompType::SimpleInvPiv>(a); sink(iv.data(), sizeof(T) * M * M); }, VG_SEED);
+    VG_DESC("qr_map T=%s M=%zu", TN, M); print_report(desc, r);
+}
+// F-C04-dynres seen from C07: functions that materialise `result_type` of a DYNAMIC slice (= the parent type) evaluate the slice over
+// the parent's extent; with a non-zero first index that reads past the end of the parent (release builds; debug builds throw)
+template<class T, size_t N> void g_dyn_inner() {
+    using TT = Tensor<T,N>;
+    Operand ops[] = {{sizeof(TT) / sizeof(T)}, {sizeof(TT) / sizeof(T)}};
+    auto r = sweep<T>(ops, 2, [](T* const* p) { TT& a = *reinterpret_cast<TT*>(p[0]); TT& b = *reinterpret_cast<TT*>(p[1]);
+        sink_val(inner(a(seq((int)N - 3, (int)N)), b(seq((int)N - 3, (int)N)))); }, VG_SEED, 0u, alignof(TT));
+    VG_DESC("dyn_inner T=%s N=%zu", TN, N); print_report(desc, r);
+}
+template<class T, size_t M, size_t N> void g_dyn_trans() {
+    using TT = Tensor<T,M,N>;
+    Operand ops[] = {{sizeof(TT) / sizeof(T)}};
+    auto r = sweep<T>(ops, 1, [](T* const* p) { TT& a = *reinterpret_cast<TT*>(p[0]);
+        auto o = evaluate(trans(a(seq(1, (int)M), seq(1, (int)N)))); sink(o.data(), sizeof(T) * 4); }, VG_SEED, 0u, alignof(TT));
+    VG_DESC("dyn_trans T=%s M=%zu N=%zu", TN, M, N); print_report(desc, r);
+}
+// std::vector of owning tensors (allocator storage: not covered by a class-level operator new)
+template<class T, size_t N> void g_heap_vec() {
+    Report r;
+    for (int it = 0; it < 12; ++it) {
+        char* pad = new char[8 + 16 * (it % 5)];
+        int rc = protect([&] {
+            std::vector<Tensor<T,N>> v(3);
+            v[1].iota(T(1)); v[2] = v[1] + v[1]; v[0] = v[2] * T(2); sink_val(v[0].sum()); });
+        ++r.runs;
+        if (rc == 1) { ++r.fault; char more[64]; std::snprintf(more, sizeof more, "sig=%d", g_fault_sig); r.note("FAULT", '-', 0, 0, more); }
+        delete[] pad;
+    }
+    VG_DESC("heap_vec T=%s N=%zu std=%ld", TN, N, (long)__cplusplus); print_report(desc, r);
+}
 // ---------------------------------------------------------------------------------------------- runtime checks
 // with checks enabled: an out-of-range scalar index must raise (std::runtime_error) and must not touch memory;
 // the operand ends exactly at a guard page at one of the placements, so an access past the end faults.
